@@ -148,14 +148,15 @@ def oks(model):
     for q, idx in sites:
         f = model.func(q)
         names.append((f, f.params[idx]))
-    f = model.func('shell.proofreader.run_proofreader_options.f')
+    from .ok import sort_key_function
+    f = sort_key_function(model)
     outer = model.func('shell.proofreader.run_proofreader_options')
     acc = None
     for n in iter_scope(outer.node):
         if isinstance(n, ast.Return) and isinstance(n.value, ast.Tuple) and len(n.value.elts) == 4 \
                 and isinstance(n.value.elts[2], ast.Name):
             acc = n.value.elts[2].id
-    if acc:
+    if acc and f is not None:
         names.append((f, acc))
     for fn, name in names:
         for n in iter_scope(fn.node):
@@ -169,11 +170,31 @@ def oks(model):
                     r.ok(n, 'sign test %s' % unparse(p))
                 elif isinstance(p, ast.List):
                     r.ok(n, 'entry copied into a map', sample=False)
+                elif isinstance(p, ast.Assign) and len(p.targets) == 1 and isinstance(p.targets[0], ast.Name) \
+                        and _alias_only_abs(fn, p.targets[0].id):
+                    r.ok(n, 'entry kept in a local that is only used through abs() / a sign test',
+                         nontrivial=True)
                 else:
                     r.fail(n, 'raw map entry %s is used without abs(): wrong for unsure (negative) '
                            'entries and, in a difference, for non-monotonic maps' % unparse(n),
                            witness='a match spanning a macro that re-orders its arguments')
     return r
+
+
+def _alias_only_abs(fn, v):
+    uses = [n for n in iter_scope(fn.node) if isinstance(n, ast.Name) and n.id == v
+            and isinstance(n.ctx, ast.Load)]
+    if not uses:
+        return False
+    for u in uses:
+        p = u._parent
+        if isinstance(p, ast.Call) and getattr(p.func, 'id', '') == 'abs' and p.args[0] is u:
+            continue
+        if isinstance(p, ast.Compare) and p.left is u and len(p.comparators) == 1 \
+                and T.is_const(p.comparators[0], 0):
+            continue
+        return False
+    return True
 
 
 # ----------------------------------------------------------------------------- DF1
